@@ -30,9 +30,9 @@ LEAN_MODULE = "Proofs.C15"
 _T = "SE.Proofs.C15."
 THEOREMS = [_T + n for n in [
     "C15_offset_is_floor", "C15_clip_loads", "C15_clip_length", "C15_clip_frames", "C15_clip_times",
-    "C15_clip_start_snapped", "C15_recording_loads", "C15_recording_of_file",
+    "C15_clip_start_snapped", "C15_clip_end", "C15_recording_loads", "C15_recording_of_file",
     "C15_clip_agrees_with_recording", "C15_time_expansion",
-    "C15_resample_length", "C15_resample_within_one_step",
+    "C15_resample_length", "C15_resample_within_one_step", "C15_resample_span",
     "C15_stft_step_truthful", "C15_stft_freq_truthful", "C15_stft_hop_within_one_sample",
     "C15_stft_step_pinned_untruthful",
     "C15_monitor_meaning", "C15_axis_ok_clip", "C15_axis_ok_recording", "C15_axis_ok_resample",
@@ -903,8 +903,8 @@ def _stage_clips(ctx):
     ctx.run_cases(OPS["load_clip"], ex)
     ctx.exhaustive["load_clip small scope"] = ("6-frame files at 4 Hz (1 and 2 channels) and 3 Hz, every clip with "
                                                "start <= end on multiples of 1/8 s in [0, 2.5]: %d cases" % len(ex))
-    ctx.run_cases(OPS["load_clip"], _clip_cases(ctx, pool, ctx.budget(1500, 12000), grid=True))
-    ctx.run_cases(OPS["load_clip"], _clip_cases(ctx, pool, ctx.budget(800, 8000), grid=False))
+    ctx.run_cases(OPS["load_clip"], _clip_cases(ctx, pool, ctx.budget(2500, 12000), grid=True))
+    ctx.run_cases(OPS["load_clip"], _clip_cases(ctx, pool, ctx.budget(1500, 8000), grid=False))
     ctx.run_cases(OPS["load_clip"], _malformed_clip_cases(ctx.rng, pool, ctx.budget(30, 200)))
 
 
@@ -918,18 +918,18 @@ def _stage_spectrograms(ctx):
     pool = getattr(ctx, "c15_pool", None) or _file_pool(ctx.rng, 10)
     if not any(b["file"]["n"] >= 100 for b in pool):
         pool = pool + [{"file": _gen_file(ctx.rng, 1000), "fsr": 8000, "te": "1"}]
-    ctx.run_cases(OPS["clip_spectrogram"], _clip_spec_cases(ctx, pool, ctx.budget(300, 3000), grid=True))
-    ctx.run_cases(OPS["clip_spectrogram"], _clip_spec_cases(ctx, pool, ctx.budget(200, 2000), grid=False))
-    ctx.run_cases(OPS["spectrogram"], _synthetic_spec_cases(ctx, ctx.budget(200, 2000)))
+    ctx.run_cases(OPS["clip_spectrogram"], _clip_spec_cases(ctx, pool, ctx.budget(500, 3000), grid=True))
+    ctx.run_cases(OPS["clip_spectrogram"], _clip_spec_cases(ctx, pool, ctx.budget(300, 2000), grid=False))
+    ctx.run_cases(OPS["spectrogram"], _synthetic_spec_cases(ctx, ctx.budget(300, 2000)))
 
 
 def _stage_resample(ctx):
     pool = getattr(ctx, "c15_pool", None) or _file_pool(ctx.rng, 10)
     if not any(b["file"]["n"] >= 7 for b in pool):
         pool = pool + [{"file": _gen_file(ctx.rng, 1000), "fsr": 8000, "te": "1"}]
-    ctx.run_cases(OPS["clip_resample"], _clip_resample_cases(ctx, pool, ctx.budget(250, 2500), grid=True))
-    ctx.run_cases(OPS["clip_resample"], _clip_resample_cases(ctx, pool, ctx.budget(150, 1500), grid=False))
-    ctx.run_cases(OPS["resample"], _synthetic_resample_cases(ctx, ctx.budget(200, 2000)))
+    ctx.run_cases(OPS["clip_resample"], _clip_resample_cases(ctx, pool, ctx.budget(400, 2500), grid=True))
+    ctx.run_cases(OPS["clip_resample"], _clip_resample_cases(ctx, pool, ctx.budget(250, 1500), grid=False))
+    ctx.run_cases(OPS["resample"], _synthetic_resample_cases(ctx, ctx.budget(300, 2000)))
 
 
 def run(ctx):
